@@ -413,7 +413,7 @@ class Interp:
         r = self.model.resolve(modname, name)
         if r is None:
             if ("builtins." + name) in self.ext or name in _BUILTIN_EXC or name in (
-                    "dict", "str", "list", "tuple", "float", "int", "bool", "set", "object", "type", "slice"):
+                    "dict", "str", "list", "tuple", "float", "int", "bool", "set", "object", "type", "slice", "map"):
                 return ExtRef("builtins." + name)
             self.err(node, f"unresolved name '{name}' in module {modname}")
         return self.wrap_resolved(r)
@@ -1880,4 +1880,7 @@ class Interp:
                                                 else Num.atom(f"abs({I.describe(a[0])})"))
         E["builtins.object.__init__"] = lambda I, a, k, n: None
         E["builtins.id"] = lambda I, a, k, n: Opaque("id")
+        E["builtins.map"] = lambda I, a, k, n: [I.call_value(a[0], [x], {}, n) for x in I.iterate(a[1], n)]
+        for _m in ("lower", "upper", "strip"):
+            E[f"builtins.str.{_m}"] = (lambda _m: lambda I, a, k, n: I.call_libmethod(a[0], _m, list(a[1:]), {}, n))(_m)
         E["builtins.slice"] = lambda I, a, k, n: slice(*[None if x is None else I.to_py(x, n) for x in a])
